@@ -38,6 +38,11 @@ class SimOS:
 
     def getcwd(self):
         sched.external('getcwd')
+        if getattr(self._fs, 'cwd_gone', False):
+            # the working directory of the process was removed: getcwd() fails with ENOENT
+            self._fs.fired('getcwd_ENOENT')
+            self._fs.log.append(['getcwd', None, 'ENOENT'])
+            raise FileNotFoundError(2, 'No such file or directory')
         self._fs.log.append(['getcwd', self._fs.cwd])
         return self._fs.cwd
 
